@@ -124,7 +124,7 @@ def case(rec, pvl, new, text, src, wit):
     # bytes that are not all decodable: image data behind END, and a stray
     # undecodable byte somewhere in the middle of the text (whatever the
     # default loader makes of it, the new one has to make the same)
-    tailed = data + b"\nEND\n\xff\xfe\x00\x81" + b"\x00" * 20
+    tailed = data + b" \nEND\n\xff\xfe\x00\x81" + b"\x00" * 20   # (blank: no dash continuation)
     cut = (len(data) * 2) // 3
     nl = data.find(b"\n", cut)
     cut = nl + 1 if nl >= 0 else cut
